@@ -528,6 +528,38 @@ theorem first_item_speaks_for_all (perFrame : List Groups)
       rw [huni g hg g0 (List.mem_cons_self)]; exact h
     · intro h; exact h g0 (List.mem_cons_self)
 
+/-! ## `for_images`: one frame of reference -/
+
+/-- **two images are related only through a common frame of reference**: `for_images` of both two-image classes refuses (ValueError) when
+one of the datasets has no FrameOfReferenceUID or the two differ - before any spatial information is read -/
+theorem forImages_needs_common_frame_of_reference (dsF dsT : ImageDs) (ff ft : Option Int) (tf tt : Bool)
+    (h : dsF.frameOfReference = none ∨ dsT.frameOfReference = none ∨ dsF.frameOfReference ≠ dsT.frameOfReference) :
+    pixToPixForImages dsF dsT ff ft tf tt = .error .value ∧ imgToImgForImages dsF dsT ff ft tf tt = .error .value := by
+  have hs : sameFrameOfReference dsF dsT = .error .value := by
+    unfold sameFrameOfReference
+    cases ha : dsF.frameOfReference with
+    | none => rfl
+    | some a =>
+      cases hb : dsT.frameOfReference with
+      | none => rfl
+      | some b =>
+        rcases h with h | h | h
+        · rw [ha] at h; cases h
+        · rw [hb] at h; cases h
+        · rw [ha, hb] at h
+          have : a ≠ b := fun e => h (by rw [e])
+          simp [this]
+  simp only [pixToPixForImages, imgToImgForImages, hs, bind, Except.bind, and_self]
+
+/-- … and with a common frame of reference `for_images` is the constructor on the spatial information of the two sides -/
+theorem forImages_eq_constructor (dsF dsT : ImageDs) (u : String) (hF : dsF.frameOfReference = some u) (hT : dsT.frameOfReference = some u)
+    (ff ft : Option Int) (tf tt : Bool) (f t : List Rat × List Rat × List Rat × Option Rat)
+    (h1 : getSpatialInformation dsF ff tf = .ok f) (h2 : getSpatialInformation dsT ft tt = .ok t) :
+    pixToPixForImages dsF dsT ff ft tf tt = pixToPixAffine f.1 f.2.1 (.seq f.2.2.1) t.1 t.2.1 (.seq t.2.2.1) ∧
+    imgToImgForImages dsF dsT ff ft tf tt = imgToImgAffine f.1 f.2.1 (.seq f.2.2.1) t.1 t.2.1 (.seq t.2.2.1) := by
+  have hs : sameFrameOfReference dsF dsT = .ok () := by simp [sameFrameOfReference, hF, hT]
+  simp only [pixToPixForImages, imgToImgForImages, hs, h1, h2, bind, Except.bind, Gen.pixToPixForImages, Gen.imgToImgForImages, and_self]
+
 /-! ## number of channels -/
 
 /-- **the number of channels of a TILED_FULL image, as the library derives it** (regenerated decision): a LABELMAP segmentation has one,
